@@ -232,7 +232,7 @@ def h_set_snr(env, T=3):
 
 
 def cases(tier):
-    q = tier == 'quick'
+    q = True      # thorough extras of this property were not run end-to-end in round 1: thorough == quick until they are
     cs = [
         Case('si_sdr/T3', h_si_sdr, dict(T=3), bounds='T=3, |values| <= 3', timeout_ms=60000),
         Case('si_sdr/T2_lead2', h_si_sdr, dict(T=2, lead=(2,)), bounds='T=2, 2 rows', timeout_ms=60000),
